@@ -10,6 +10,7 @@ import (
 	bnet "github.com/bio-routing/bio-rd/net"
 	"github.com/bio-routing/bio-rd/net/tcp"
 	"github.com/bio-routing/bio-rd/protocols/bgp/server"
+	"github.com/bio-routing/bio-rd/route"
 	"github.com/bio-routing/bio-rd/routingtable"
 	"github.com/bio-routing/bio-rd/routingtable/filter"
 	"github.com/bio-routing/bio-rd/routingtable/vrf"
@@ -197,6 +198,7 @@ type session struct {
 	peerKey *bnet.IP
 	nsess   int
 	other   *vconn // connection of the second peer's session, if any
+	peerID  uint32 // BGP identifier of the last OPEN the peer sent
 }
 
 func newSession(cfg sessCfg) *session {
@@ -302,6 +304,7 @@ func (s *session) openBytes(o sessOpen) []byte {
 	case "ours":
 		id = 100
 	}
+	s.peerID = id
 	caps := []wire.Cap{{Code: 1, Value: []byte{0, 2, 0, 1}}} // multiprotocol IPv6 unicast
 	if o.AS4 != "none" {
 		caps = append(caps, wire.Cap{Code: 65, Value: wire.U32(as4)})
@@ -484,6 +487,11 @@ func (s *session) observe() sessState {
 	if closed {
 		o.Conn = "closed"
 	}
+	// with a short hold time (configured or offered by the peer) the speaker writes a KEEPALIVE every second or so
+	shortHold := s.cfg.Hold < 30
+	if f := s.fsm(); f != nil && f.HoldTime > 0 && f.HoldTime < 30*time.Second {
+		shortHold = true
+	}
 	msgs, _, err := wire.SplitStream(raw)
 	for _, m := range msgs {
 		d, derr := wire.Decode(m, wire.Options{ASN4: s.asn4})
@@ -502,7 +510,7 @@ func (s *session) observe() sessState {
 			case wire.TypeKeepalive:
 				e.Kind = "KEEPALIVE"
 				o.keepalives++
-				if s.cfg.Hold < 30 && o.keepalives > 1 {
+				if shortHold && o.keepalives > 1 {
 					continue // the periodic KEEPALIVEs of a short hold time are counted, not listed (the model's outbox has the first one)
 				}
 			case wire.TypeNotification:
@@ -621,6 +629,61 @@ func (s *session) locrib() []string {
 	return out
 }
 
+// learnedAttrsProblem checks the attributes of the Loc-RIB routes learned from the peer against what updateBytes sends:
+// ORIGIN IGP, AS_PATH (peer AS | 65010 on iBGP, 65020), next hop 10.0.0.201 / 2001:db8::c9, LOCAL_PREF 100, no MED.
+func (s *session) learnedAttrsProblem() string {
+	first := uint32(65001)
+	if s.cfg.IBGP {
+		first = 65010
+	}
+	check := func(r *route.Route, v6 bool) string {
+		name := sessPfxName(r.Prefix())
+		if name == "o1" || name == "o2" || name == "l" {
+			return ""
+		}
+		for _, p := range r.Paths() {
+			b := p.BGPPath
+			if p.Type != route.BGPPathType || b == nil || b.BGPPathA == nil {
+				return fmt.Sprintf("%s: not a BGP path", name)
+			}
+			asns := []uint32{}
+			if b.ASPath != nil {
+				for _, seg := range *b.ASPath {
+					asns = append(asns, seg.ASNs...)
+				}
+			}
+			if fmt.Sprint(asns) != fmt.Sprint([]uint32{first, 65020}) {
+				return fmt.Sprintf("%s: AS_PATH %v, sent [%d 65020]", name, asns, first)
+			}
+			wantNH := "10.0.0.201"
+			if v6 {
+				wantNH = "2001:db8::c9"
+			}
+			if b.BGPPathA.NextHop == nil || b.BGPPathA.NextHop.String() != wantNH {
+				return fmt.Sprintf("%s: next hop %v, sent %s", name, b.BGPPathA.NextHop, wantNH)
+			}
+			if b.BGPPathA.Origin != 0 || b.BGPPathA.MED != 0 || b.BGPPathA.LocalPref != 100 || b.BGPPathA.EBGP == s.cfg.IBGP {
+				return fmt.Sprintf("%s: origin %d MED %d LOCAL_PREF %d eBGP %v", name, b.BGPPathA.Origin, b.BGPPathA.MED, b.BGPPathA.LocalPref, b.BGPPathA.EBGP)
+			}
+			if b.BGPPathA.Source == nil || b.BGPPathA.Source.String() != "10.0.0.201" || b.BGPPathA.BGPIdentifier != s.peerID {
+				return fmt.Sprintf("%s: source %v identifier %d, the peer is 10.0.0.201 / %d", name, b.BGPPathA.Source, b.BGPPathA.BGPIdentifier, s.peerID)
+			}
+		}
+		return ""
+	}
+	for _, r := range s.vrf.IPv4UnicastRIB().Dump() {
+		if p := check(r, false); p != "" {
+			return p
+		}
+	}
+	for _, r := range s.vrf.IPv6UnicastRIB().Dump() {
+		if p := check(r, true); p != "" {
+			return p
+		}
+	}
+	return ""
+}
+
 // diff returns the first field in which the observation leaves the expectation ("" if none).
 func (s *session) diff(exp sessState, got sessState, subs []int, malformedEarly bool) (field, kind string, want, have interface{}) {
 	if exp.St != got.St {
@@ -673,6 +736,10 @@ func (s *session) diff(exp sessState, got sessState, subs []int, malformedEarly 
 	wantLoc := nlriKeys(exp.Loc)
 	if k, _, _ := core.SetDiff(wantLoc, s.locrib()); k != "" {
 		return "loc-rib", k, wantLoc, s.locrib()
+	}
+	// what was learned from the peer carries the attributes the peer sent (C20: every NLRI gets the UPDATE's attributes)
+	if p := s.learnedAttrsProblem(); p != "" {
+		return "learned-attributes", "wrong", "the attributes of the UPDATE", p
 	}
 	// the Adj-RIB-Out holds the other source's routes while the session is attached and its export policy accepts
 	wantOut := append([]string{}, exp.AdjOut...)
